@@ -410,7 +410,9 @@ private:
 
 		// Compute the event before `first` and `args` are forwarded into the tuple,
 		// the order of evaluation of the constructor arguments is unspecified.
-		const auto e = GetEvent::getEvent(std::forward<T>(first), args...);
+		// Can't std::forward<T>(first) in GetEvent::getEvent: `first` is also stored in the tuple below, and
+		// getEvent returning its rvalue parameter by value moves from it (implicit move, C++20 and clang).
+		const auto e = GetEvent::getEvent(first, args...);
 		doEnqueueItem(QueuedItemType(
 			PrototypeInfo::index,
 			e,
